@@ -109,6 +109,13 @@ def generate(seed, tier):
             yield req("utf16le", r.choice(["crlf", "cr", "mix"]), n, h, r.choice("scb"), t)
         for n in (far if thorough else r.sample(far, 5)):
             yield req("utf8", r.choice(["lf", "crlf", "cr", "mix"]), n, h, r.choice("sc"), t)
+        # the very first characters of the input (get_first_char reads up to two units on its own): blank / comment lines in front
+        # of a document without magic code, in every terminator style
+        if not v2:
+            for lead in ("\n", "\n\n", "\n \n", "\n#x\n", " \n"):
+                for style in ("lf", "crlf", "cr", "mix"):
+                    yield req("utf8", style, len(lead) + len(head) + 40, hexs(lead + head), "s", t)
+                yield req("utf16le", r.choice(["crlf", "cr"]), len(lead) + len(head) + 40, hexs(lead + head), "s", t)
         # every delimiter / terminator / non-ASCII character INSIDE the construct on the buffer boundaries as well
         spots = [len(tail[:i].encode("utf-8")) for i, ch in enumerate(tail) if ch in ";'\"[]{}\n_#:\\" or ord(ch) > 126]
         for k in (spots if thorough else r.sample(spots, min(6, len(spots)))):
